@@ -30,17 +30,26 @@ PROVED (loop of any length, any number of reactions per gene, any depth of the s
       different cells - one bounds entry per reaction, by the witness map): the replay gives back functional, lb and ub of EVERY
       object; the variable bounds then follow from C01's map F (c03_glue `resettable/bounds:*`).
 
+  Reaction.{lower_bound,upper_bound,bounds}@setter[raise], Gene.functional@setter[raise]   the setter BODIES when they raise (lb > ub
+      in the NaN-free extended reals; a non-bool value: int, None, str, float): ValueError and NOTHING has been changed - so the
+      registration `resettable` made before the call has to undo the unchanged state, a no-op (c03_glue resettable/*).  Mutants:
+      `_lower_bound` assigned before _check_bounds -> post.1, post.2, frame.1 (sat); `_functional` assigned before the type check ->
+      undecided (cannot store a non-bool).
+
 PRECONDITIONS (stated): those of the no-context contracts (valid bounds everywhere, well-formed rules), the receiver is in a model,
 for Gene.knock_out every reaction of the gene points at the gene's model (C02 cross-reference invariant), the innermost manager is
 not None.
-NOT covered: knock_out_model_genes in a context (same registrations through the same two wrappers: not put under contract here).
+NOT covered by a contract of its own: knock_out_model_genes in a context (one Gene.knock_out per gene plus reads: c03_glue
+`undo-restores/sequence` composes the per-gene lemmas).
 
-Mutation trials (tools/mutate_and_run.sh, each must NOT verify):
-  gene.py  `self.functional = False` -> `self._functional = False` (bypasses the wrapper) ........ Gene.knock_out[context] inv-init / post (trace entry 0)
-  gene.py  `if not reaction.functional:` -> `if reaction.functional:` ............................ loop#0/inv-preserve
-  gene.py  `reaction.bounds = (0, 0)` -> `reaction._lower_bound = 0; reaction._upper_bound = 0` .. loop#0/inv-preserve (no registration)
-  reaction.py knock_out `self.bounds = (0, 0)` -> `self.bounds = (0, 1)` .......................... Reaction.knock_out[context] post
-  reaction.py knock_out `self.bounds = (0, 0)` -> `self._lower_bound = 0; self._upper_bound = 0; self.update_variable_bounds()`  post (trace)
+Mutation trials (tools/mutate_and_run.sh, none verifies):
+  gene.py  `self.functional = False` -> `self._functional = False` (bypasses the wrapper) ........ Gene.knock_out[context] loop#0/inv-init.4, .5 (unknown: trace entry 0)
+  gene.py  `if not reaction.functional:` -> `if reaction.functional:` ............................ loop#0/inv-preserve.3 (effect), .6, .7 (trace) (unknown)
+  gene.py  `reaction.bounds = (0, 0)` -> `reaction._lower_bound = 0; reaction._upper_bound = 0` .. loop#0/inv-preserve.7 (unknown: the bounds entry is missing;
+           the no-context invariant of c07_knockout alone does not notice this mutant)
+  gene.py  `self.functional = False` moved AFTER the loop ........................................ loop#0/inv-init.1, .4, .5 (unknown)
+  reaction.py knock_out `self.bounds = (0, 0)` -> `self.bounds = (0, 1)` .......................... Reaction.knock_out[context] post.4, post.6, post.8 (sat)
+  reaction.py knock_out `self.bounds = (0, 0)` -> `self._lower_bound = 0; self._upper_bound = 0; self.update_variable_bounds()`  post.8 (sat: no registration)
 """
 import z3
 from .common import *  # noqa
@@ -238,6 +247,52 @@ REG.add(Contract(K7.MG, "Gene.knock_out", "C03", [("self", TRef("Gene"))], [Case
                                                              ("heap", "var_ub")] + GHOST_MOD)},
                  note="a context is open on the gene's model; the gene's reactions point at that model; assignments to `functional` / "
                       "`bounds` = resettable.wrapper (proved contract, instantiated: ASSUMED transcription) then the setter body (proved)"))
+
+
+
+# ---------------------------------------------------------------- the setter BODIES when they raise: nothing has been changed
+# (the state s' the `resettable` registration then has to undo is the state before the call: c03_glue CI/step with s' = s and the
+# undo = setter(old value), a no-op by resettable/bounds:* with nothing arbitrary).  Within the NaN-free extended reals of c01_lp the
+# only raising path of the three bounds setters is _check_bounds, BEFORE the first assignment; Gene.functional raises before its
+# assignment for every non-bool.  (Outside this model - NaN, strings: optlang raises after the assignment - see c03_glue (3).)
+def _nothing_changed(fields):
+    def post(E):
+        cs = []
+        for f in fields:
+            a0, a1 = E.eng.heap_arr(E.s0, f), E.eng.heap_arr(E.s1, f)
+            if isinstance(a0, tuple):
+                cs += [z3.BoolVal(True) if x.eq(y) else x == y for x, y in zip(a0, a1)]
+            else:
+                cs.append(z3.BoolVal(True) if a0.eq(a1) else a0 == a1)
+        return z3.And(*cs)
+    return post
+
+
+_BF = ("_lower_bound", "_upper_bound", "var_lb", "var_ub")
+RAISE_KEYS = []
+for _name in ("lower_bound", "upper_bound", "bounds"):
+    _c = REG.get(f"Reaction.{_name}@setter")
+    _raising = [c for c in _c.cases if c.raises][0]
+    _k = f"Reaction.{_name}@setter[raise]"
+    REG.add(Contract(C1.M, f"Reaction.{_name}@setter", "C03", _c.params,
+                     [Case("lb_gt_ub:nothing_changed", requires=_raising.requires, ensures=_nothing_changed(_BF), raises="ValueError")],
+                     pre=(lambda c, r: (lambda E: z3.And(c.pre(E), r.requires(E))))(_c, _raising), modifies=C1.SET_MOD, key=_k, props=["C03"],
+                     note="the raising case of the C01 contract with the post-condition `no bound and no variable bound has changed`"))
+    RAISE_KEYS.append(_k)
+
+
+def _fun_case(tag, t):
+    c = Case(f"{tag}:ValueError_nothing_changed", ensures=_nothing_changed(("_functional",)), raises="ValueError")
+    c.params_override = {"value": t}
+    return c
+
+
+REG.add(Contract(K7.MG, "Gene.functional@setter", "C03", [("self", TRef("Gene")), ("value", TInt())],
+                 [_fun_case("int", TInt()), _fun_case("none", TNone()), _fun_case("str", TStr()), _fun_case("float", TReal())],
+                 modifies=lambda E: [("heap", "_functional")], key="Gene.functional@setter[raise]", props=["C03"],
+                 note="a value that is not a bool (an int such as 0 / 1, None, a str, a float): ValueError before the assignment"))
+RAISE_KEYS.append("Gene.functional@setter[raise]")
+KEYS = KEYS + RAISE_KEYS
 
 
 # ---------------------------------------------------------------- glue: replaying the registered undos restores
